@@ -25,7 +25,8 @@ INTERLEAVING_MEASURE = "distinct (n_jobs, W, mode, completion-order permutation)
 PROBES = ["unordered_permuted", "straggler_overtaken", "ties_broken", "lazy_calls",
           "faults_job_exception", "dict_runs", "list_runs", "gen_runs", "unordered_runs",
           "after_fault_call_ok", "seam_entered", "sequential_path", "reverse_order_runs",
-          "pbar_runs", "closure_jobs", "exact_once_checked"]
+          "pbar_runs", "closure_jobs", "exact_once_checked", "fault_raised_to_caller",
+          "fault_kind_exception", "fault_kind_worker_death", "fault_kind_memory"]
 REAL_VS_STUB = {
     "real": ["accelforge.util.parallel.parallel / delayed / set_n_parallel_jobs",
              "cloudpickle round trip of every job and result", "tqdm progress bar"],
@@ -94,6 +95,7 @@ def gen_scenario(seed):
         "exec_shuffle": r.random() < 0.2,
         "fn_kind": r.choice(["counted", "counted", "closure"]),
         "fault_at": (r.randrange(n) if n and r.random() < 0.2 else None),
+        "fault_kind": r.choice(["exception", "worker_death", "worker_death", "memory"]),
         "p_nonzero": r.choice([1.0, 1.0, 0.5, 0.2]),
         "tape_seed": r.getrandbits(48),
     }
@@ -119,6 +121,8 @@ def simplify(sc):
         yield dict(sc, fn_kind="counted")
     if sc["fault_at"] is not None:
         yield dict(sc, fault_at=None)
+        if sc.get("fault_kind") != "exception":
+            yield dict(sc, fault_kind="exception")
     if sc["key_shuffle"]:
         yield dict(sc, key_shuffle=False)
     if sc["key_kind"]:
@@ -157,7 +161,7 @@ def execute(sc, tape, run_id=0):
     else:
         jobs_in = jobs
 
-    fault_exc = ex.InjectedWorkerDeath(f"injected: worker died in job {sc['fault_at']}")
+    fault_exc = ex.make_fault(sc.get("fault_kind", "exception"), f"failure in job {sc['fault_at']}")
 
     def job_fault(sim, rec, i):
         # dict jobs are re-wrapped; position i in the submitted list is what we target
@@ -187,9 +191,9 @@ def execute(sc, tape, run_id=0):
                 out = P.parallel(jobs_in, **kwargs)
                 if sc["return_as"] in ("generator", "generator_unordered"):
                     out = list(out)
-            except ex.InjectedFault as e:
-                raised = e
-            except Exception as e:  # anything else escaping parallel() is a finding
+            except BaseException as e:
+                if isinstance(e, (KeyboardInterrupt, SystemExit)):
+                    raise
                 raised = e
             # follow-up call on the same module must work (no state left behind)
             after_ok = None
@@ -208,22 +212,21 @@ def execute(sc, tape, run_id=0):
             "delivery": tuple(sim.calls[0].delivery) if sim.calls else (),
             "sim": sim}
 
-    if fault_fired:
-        if raised is None:
-            bad("fault_swallowed", f"job {sc['fault_at']} raised {fault_exc!r} but parallel() "
-                f"returned {str(out)[:200]}")
-        elif raised is not fault_exc and not (type(raised) is type(fault_exc)
-                                              and raised.args == fault_exc.args):
-            bad("fault_replaced", f"expected {fault_exc!r}, parallel() raised {raised!r}")
-        if after_ok is False:
-            bad("state_after_fault", "a parallel() call after a failed one returned wrong results")
-        info["after_ok"] = after_ok
-        return viols, info
+    info["after_ok"] = after_ok
+    if after_ok is False:
+        bad("state_after_fault", "a parallel() call made after a failed one returned wrong results")
     if raised is not None:
+        if fault_fired:
+            info["fault_raised"] = True
+            if not ex.is_injected(raised) and raised is not fault_exc:
+                info["fault_replaced"] = True  # not C32's business which exception comes out
+            return viols, info
         bad("unexpected_exception", f"parallel() raised {type(raised).__name__}: {raised}")
         return viols, info
-    if after_ok is False:
-        bad("state_after_fault", "follow-up parallel() call returned wrong results")
+    # No exception.  Either there was no fault, or the runner recovered from it (allowed): in
+    # both cases whatever it returned must put every job's result in its own place.
+    if fault_fired:
+        info["fault_recovered"] = True
 
     # ---- oracle: token dictionary
     if sc["container"] == "dict":
@@ -231,7 +234,11 @@ def execute(sc, tape, run_id=0):
             bad("dict_type", f"dict jobs returned {type(out).__name__}")
         else:
             if list(out.keys()) != expect_keys:
-                bad("dict_key_order", f"keys {list(out.keys())[:8]} != input order {expect_keys[:8]}")
+                # C32 says "map each key to its own job's result"; key *order* is relied upon by
+                # callers (checked where it matters: C15, C20) but is not part of this property
+                info["dict_key_order_differs"] = True
+            if set(map(repr, out.keys())) != set(map(repr, expect_keys)):
+                bad("dict_keys", f"keys {list(out.keys())[:8]} are not the input keys {expect_keys[:8]}")
             wrong = [(k, out.get(k), v) for k, v in zip(expect_keys, expect_vals)
                      if out.get(k) != v]
             if wrong:
@@ -250,13 +257,12 @@ def execute(sc, tape, run_id=0):
                 i = wrong[0]
                 bad("list_position", f"position {i} holds {out[i]!r}, expected {tokens[i]!r}; "
                     f"completion order {info['delivery'][:12]}")
-    # ---- exactly once (bounded liveness: n executions, no more, no fewer)
+    # ---- execution counts (diagnostic only: C32 speaks about positions, not about how often
+    # a job ran; a runner that retries after a failure is allowed to run a job twice)
     if sc["fn_kind"] == "counted":
         cnt = [EXEC.get((run_id, i), 0) for i in range(n)]
-        if any(c != 1 for c in cnt):
-            i = next(i for i, c in enumerate(cnt) if c != 1)
-            bad("exactly_once", f"job {i} executed {cnt[i]} times")
-        info["exact_once"] = True
+        info["exact_once"] = all(c == 1 for c in cnt)
+        info["not_once"] = sum(1 for c in cnt if c != 1)
     return viols, info
 
 
@@ -288,6 +294,11 @@ def run_seed(seed, ctx):
     st["pbar_runs"] = int(sc["pbar"])
     st["closure_jobs"] = int(sc["fn_kind"] == "closure")
     st["exact_once_checked"] = int(bool(info.get("exact_once")))
+    st["dict_key_order_differs"] = int(bool(info.get("dict_key_order_differs")))
+    st["jobs_not_run_exactly_once"] = int(info.get("not_once") or 0)
+    st["fault_raised_to_caller"] = int(bool(info.get("fault_raised")))
+    st["fault_recovered_by_runner"] = int(bool(info.get("fault_recovered")))
+    st["fault_kind_" + sc.get("fault_kind", "exception")] = int(info["fault_fired"])
     d = info["delivery"]
     permuted = any(d[j] > d[j + 1] for j in range(len(d) - 1))
     nontrivial = n >= 2 and info["entered"] and (permuted or info["fault_fired"])
